@@ -41,8 +41,9 @@ function decodeStrLit(s) {
     if (c !== '\\') { out += c; continue }
     const n = body[++i]
     if (n === undefined) return null
-    const simple = { r: '\r', n: '\n', t: '\t', b: '\b', f: '\f', v: '\v', 0: '\0' }
+    const simple = { r: '\r', n: '\n', t: '\t', b: '\b', f: '\f', v: '\v' }
     if (n in simple) out += simple[n]
+    else if (/[0-7]/.test(n)) { const m = /^(?:[0-3][0-7]{0,2}|[4-7][0-7]?)/.exec(body.slice(i))[0]; out += String.fromCharCode(parseInt(m, 8)); i += m.length - 1 } // legacy octal escape
     else if (n === '\n' || n === '\u2028' || n === '\u2029') continue // line continuation
     else if (n === '\r') { if (body[i + 1] === '\n') i++; continue }
     else if (n === 'x') { out += String.fromCharCode(parseInt(body.substr(i + 1, 2), 16)); i += 2 } else if (n === 'u' && body[i + 1] === '{') { const j = body.indexOf('}', i); out += String.fromCodePoint(parseInt(body.slice(i + 2, j), 16)); i = j } else if (n === 'u') { out += String.fromCharCode(parseInt(body.substr(i + 1, 4), 16)); i += 4 } else out += n
